@@ -127,6 +127,7 @@ var (
 	noMin    = flag.Bool("nomin", false, "do not minimise")
 	noQuar   = flag.Bool("noquarantine", false, "explore with known-finding windows open (for triage)")
 	verbose  = flag.Bool("v", false, "verbose")
+	selftest = flag.Int("selftest", 0, "determinism self-test: run this many seeds per family twice each at GOMAXPROCS 1, 4 and 16 in separate processes and compare event-log hashes")
 )
 
 func envOr(k, d string) string {
@@ -234,6 +235,10 @@ func main() {
 	}
 	if *replayF != "" {
 		os.Exit(doReplay(harnessOf(*replayF), *replayF))
+	}
+
+	if *selftest > 0 {
+		os.Exit(doSelftest(getBin, pc, seed, *selftest))
 	}
 
 	// Known findings for this property.
@@ -959,4 +964,81 @@ func writeEvidence(prop string, pc *propConfig, seed uint64, a *aggregate, wall 
 	if err := os.WriteFile(filepath.Join(verifDir, "evidence", prop+".json"), js, 0666); err != nil {
 		fatal2("writing evidence: %v", err)
 	}
+}
+
+// doSelftest proves determinism on a sample: every chunk of seeds is executed
+// six times in separate OS processes (twice at each of GOMAXPROCS 1, 4, 16) and
+// the per-run event-log hashes must be identical.
+func doSelftest(getBin func(string) *harnessBin, pc *propConfig, seed uint64, n int) int {
+	bad := 0
+	total := 0
+	for fi, fam := range pc.families() {
+		h := getBin(fam.Harness)
+		flags := map[string]string{"tier": *tier}
+		for k, v := range fam.Flags {
+			flags[k] = v
+		}
+		var windows []string
+		for _, kf := range loadKnown(h.prop) {
+			if kf.Status == "known" && kf.Window != "" {
+				windows = append(windows, kf.Window)
+			}
+		}
+		sort.Strings(windows)
+		if len(windows) > 0 {
+			flags["windows"] = strings.Join(windows, "+")
+		}
+		const chunk = 5
+		type job struct{ from, to int }
+		var jobs []job
+		for a := 0; a < n; a += chunk {
+			jobs = append(jobs, job{a, a + chunk})
+		}
+		var mu sync.Mutex
+		var wg sync.WaitGroup
+		sem := make(chan struct{}, runtime.NumCPU())
+		for _, j := range jobs {
+			wg.Add(1)
+			sem <- struct{}{}
+			go func(j job) {
+				defer wg.Done()
+				defer func() { <-sem }()
+				var ref string
+				for rep, gmp := range []string{"1", "1", "4", "4", "16", "16"} {
+					cmd := h.cmd("-seed", strconv.FormatUint(seed+uint64(fi)*7919, 10), "-from", strconv.Itoa(j.from), "-to", strconv.Itoa(j.to), "-flags", flagString(flags))
+					cmd.Env = append(cmd.Env, "VERIF_GOMAXPROCS="+gmp)
+					var out, errb bytes.Buffer
+					cmd.Stdout, cmd.Stderr = &out, &errb
+					if err := runTimeout(cmd, 5*time.Minute); err != nil {
+						mu.Lock()
+						fmt.Printf("selftest: worker failed: %v\n%s\n", err, tail(errb.String(), 1000))
+						bad++
+						mu.Unlock()
+						return
+					}
+					var s summary
+					json.Unmarshal(lastJSONLine(out.Bytes()), &s)
+					sig := fmt.Sprint(s.Hashes, s.Steps, s.Runs)
+					if rep == 0 {
+						ref = sig
+					} else if sig != ref {
+						mu.Lock()
+						fmt.Printf("NONDETERMINISM property=%s family=%s runs %d..%d: execution %d (GOMAXPROCS=%s) differs from the first\n  first: %s\n  this:  %s\n", h.prop, fam.Name, j.from, j.to, rep, gmp, tail(ref, 300), tail(sig, 300))
+						bad++
+						mu.Unlock()
+					}
+				}
+				mu.Lock()
+				total += j.to - j.from
+				mu.Unlock()
+			}(j)
+		}
+		wg.Wait()
+	}
+	if bad > 0 {
+		fmt.Printf("DETERMINISM FAILED property=%s mismatching chunks=%d\n", pc.Harness, bad)
+		return 2
+	}
+	fmt.Printf("DETERMINISM ok: %d seeds x 6 executions (GOMAXPROCS 1,1,4,4,16,16, separate processes), all event-log hashes equal\n", total)
+	return 0
 }
